@@ -527,6 +527,11 @@ def handle (line : String) : String × String :=
   | ["serdeh", hex] => handleSerde "serdeh" hex
   | ["serdes", hex] => handleSerde "serdes" hex
   | ["serdert", _] => ("same", "same")
+  | ["fmtclass", t, hex] =>
+    -- the finding class of a body under production chunking with `t` threads (corpus files: no declarations at hand)
+    match t.toNat?, hexBytes? hex with
+    | some threads, some b => ((if Wellen.VcdBody.handoverSafe b threads Wellen.Gen.minChunkSize then "-" else "FMT"), "-")
+    | _, _ => ("bad-request", "-")
   | ["chunks", t, n] =>
     match t.toNat?, n.toNat? with
     | some threads, some len =>
